@@ -76,6 +76,8 @@ class Ctx:
         self.dtype = torch.float32
         self.exact_rounding = False
         self.rounding_stubbed = 0
+        self.replay_double = True
+        self.rtol, self.atol = REPLAY_RTOL, REPLAY_ATOL
 
     # ------------------------------------------------------------------ inputs
     def _witness(self, w):
@@ -94,7 +96,7 @@ class Ctx:
             for i, n in enumerate(names):
                 if n in self.model and self.model[n] is not None:
                     flat[i] = float(self.model[n])
-            r = flat.reshape(t.shape).to(torch.float64 if dtype == torch.float32 else dtype)  # replay in double precision
+            r = flat.reshape(t.shape).to(torch.float64 if (dtype == torch.float32 and self.replay_double) else dtype)
             if requires_grad:
                 r.requires_grad_(True)
             return r
@@ -272,7 +274,7 @@ class Ctx:
                 except RuntimeError:
                     self.replay_failures.append(dict(index=i, what=what, kind="shape", detail=f"{tuple(ta.shape)} vs {tuple(tb.shape)}"))
                     return
-            bad = ~((ta - tb).abs() <= REPLAY_ATOL + REPLAY_RTOL * tb.abs())
+            bad = ~((ta - tb).abs() <= self.atol + self.rtol * tb.abs())
             bad |= ~(torch.isfinite(ta) & torch.isfinite(tb))
             if bool(bad.any()):
                 k = int(bad.reshape(-1).nonzero()[0])
@@ -388,7 +390,7 @@ class Ctx:
                 return
             ta = torch.as_tensor(_nested(a), dtype=torch.float64)
             tb = torch.as_tensor(_nested(b), dtype=torch.float64)
-            bad = ~((ta - tb).abs() <= float(bound) + REPLAY_ATOL + REPLAY_RTOL * tb.abs())
+            bad = ~((ta - tb).abs() <= float(bound) + self.atol + self.rtol * tb.abs())
             if bool(bad.any()):
                 k = int(bad.reshape(-1).nonzero()[0])
                 self.replay_failures.append(dict(index=i, what=what, kind="close", detail=f"element {k}: got {ta.reshape(-1)[k].item():.9g} expected {tb.reshape(-1)[k].item():.9g} +- {float(bound):g}"))
@@ -650,8 +652,22 @@ def run_obligation(fn: Callable, params: dict, tier: str, seed: int, name: str, 
 
 
 def replay(fn, params, tier, seed, model, target_index=None) -> dict:
-    """Run the harness function on concrete tensors built from `model`, without the engine."""
+    """Run the harness function on concrete tensors built from `model`, without the engine: first in the
+    precision users run (float32, loose tolerance), then in double precision (tight tolerance)."""
+    r32 = _replay_once(fn, params, tier, seed, model, target_index, double=False)
+    if r32["failures"] or r32["crash"] is not None:
+        r32["precision"] = "float32"
+        return r32
+    r64 = _replay_once(fn, params, tier, seed, model, target_index, double=True)
+    r64["precision"] = "float64"
+    return r64
+
+
+def _replay_once(fn, params, tier, seed, model, target_index, double) -> dict:
     ctx = Ctx("replay", tier, seed, model=model)
+    ctx.replay_double = double
+    if not double:
+        ctx.rtol, ctx.atol = 2e-3, 2e-3
     ctx.replay_target = target_index
     res = dict(failures=[], crash=None)
     try:
